@@ -565,6 +565,19 @@ fn c17_get_commands_two_segments() {
     kani::cover!((m == COMMAND_RESPONSE_MAX) & (idx == 2), "exact fit");
 }
 
+/// Both entries pending and s1 ALREADY resumed once (entry inside the segment, not at its first
+/// command): when the response fills up in the middle of s1 again, the resume position must be
+/// counted from the entry's position, not from the segment start (added after a seeded change
+/// that computed it from `shortest_max_cut()` went undetected).
+#[kani::proof]
+#[kani::unwind(7)]
+fn c17_get_commands_resume_inside_resumed_segment() {
+    let a: u64 = kani::any();
+    kani::assume(a <= 2);
+    let (m, idx) = get_commands_case(a, 4, 0);
+    kani::cover!((m > COMMAND_RESPONSE_MAX) & (idx == 1), "filled up in the middle of an already resumed s1");
+}
+
 /// Only the second entry pending, from a symbolic position (1..=4 commands remain).
 #[kani::proof]
 #[kani::unwind(7)]
